@@ -89,24 +89,24 @@ def run(rep, tier, rng):
     k = 0
     inadmissible = 0
     for text, binds in terms:
-        if not admissible(binds):
-            inadmissible += 1
-            continue
         cid = "i%d" % k; k += 1
         cases.append((cid, "imports", ["(import %s)" % text]))
-        expect[cid] = sorted("%s=i:%d" % (n, v) for n, v in binds)
+        if not admissible(binds):
+            # one name with two different bindings: an error, the same on every run
+            inadmissible += 1
+            expect[cid] = "conflict"
+        else:
+            expect[cid] = sorted("%s=i:%d" % (n, v) for n, v in binds)
     # two import sets in one declaration: union (later wins on equal names with equal values only: admissible)
     adm = [(t, b) for t, b in d1 if admissible(b)]
     for _ in range(400 if tier == "quick" else 5000):
         (t1, b1), (t2, b2) = rng.choice(adm), rng.choice(adm)
         merged = dict(b1)
         conflict = any(n in merged and merged[n] != v for n, v in b2)
-        if conflict:
-            continue
         merged.update(dict(b2))
         cid = "u%d" % k; k += 1
         cases.append((cid, "imports", ["(import %s %s)" % (t1, t2)]))
-        expect[cid] = sorted("%s=i:%d" % (n, v) for n, v in merged.items())
+        expect[cid] = "conflict" if conflict else sorted("%s=i:%d" % (n, v) for n, v in merged.items())
     impls = [C.run_hx(cases) for _ in range(3)]
     model = C.run_driver(cases)
     for cid, _, f in cases:
@@ -118,6 +118,13 @@ def run(rep, tier, rng):
         if any(im.get(cid) != a for im in impls[1:]):
             rep.violation({"what": "the outcome of an import differs between runs", "declaration": f[0],
                            "runs": [im.get(cid) for im in impls]})
+        elif expect[cid] == "conflict":
+            if not (a and a[0].startswith("E other")):
+                rep.violation({"what": "a declaration that imports one name with two different bindings is not rejected",
+                               "declaration": f[0], "implementation": a})
+            elif (model.get(cid) or ["?"])[0].split(" ")[:2] != a[0].split(" ")[:2]:
+                rep.violation({"broken": "correspondence Interp.evalImport <-> eval_import (conflict)", "declaration": f[0],
+                               "implementation": a, "model": model.get(cid)}, no_input=True)
         elif a != expect[cid]:
             rep.violation({"what": "the environment after the import is not what the import-set algebra yields",
                            "declaration": f[0], "expected": expect[cid], "implementation": a})
@@ -125,7 +132,7 @@ def run(rep, tier, rng):
             rep.violation({"broken": "correspondence Interp.evalImportSet <-> eval_import_set", "declaration": f[0],
                            "implementation": a, "model": model.get(cid)}, no_input=True)
     rep.extra["operators"] = len(ops)
-    rep.extra["inadmissible_terms_skipped"] = inadmissible
+    rep.extra["conflicting_terms"] = inadmissible
 
 
 def main(tier, seed):
@@ -135,7 +142,7 @@ def main(tier, seed):
                        "<=3 of the exports plus an unknown name, prefix with 2 prefixes, rename with every single renaming into "
                        "exported/fresh names, a swap, a 3-cycle, a chain, an unknown source, the empty renaming) at depth 1 "
                        "(exhaustive) and depth 2 (6000 sampled in quick, exhaustive in thorough; sampled depth 3 in thorough), and "
-                       "two-set declarations; only admissible terms (no two bindings of one name); each run in 3 processes; "
+                       "two-set declarations; terms that bind one name twice must be rejected; each run in 3 processes; "
                        "distinct = distinct declaration texts")
     ok = C.standard_proof_phase(rep, MODULES, directed_search=lambda r: run(r, tier, rng))
     if ok:
